@@ -580,6 +580,7 @@ class EventBus:
         if self.event_queue:
             try:
                 self.event_queue.put_nowait(event)
+                event._event_pending_bus_count += 1  # pyright: ignore[reportPrivateUsage]
                 # Only add to history after successfully queuing
                 self.event_history[event.event_id] = event
                 logger.info(
@@ -1034,7 +1035,11 @@ class EventBus:
                 )
 
         # Execute handlers
-        await self._execute_handlers(event, handlers=applicable_handlers, timeout=timeout)
+        try:
+            await self._execute_handlers(event, handlers=applicable_handlers, timeout=timeout)
+        finally:
+            # this bus is done with the event (also when the processing was interrupted by a parent handler's timeout)
+            event._event_pending_bus_count = max(0, event._event_pending_bus_count - 1)  # pyright: ignore[reportPrivateUsage]
 
         await self._default_log_handler(event)
         await self._default_wal_handler(event)
